@@ -133,3 +133,72 @@ def run(prog, prefix="mpq_", rule="R-SENSEMAP"):
         else:
             res.sample({"sense": letter, "coefficient_sign": "%+d" % list(allsigns)[0], "verdict": "same in " + ", ".join(BUILDERS)}, limit=4)
     return res
+
+
+def run_rangealloc(prog, rule="R-RANGEALLOC", floor=2):
+    """a ranged row has a range.  `ILLlpdata::rangeval` is allocated lazily (a problem without ranged rows has none); the writers emit
+    the RANGES section / the range of an 'R' row only when the array exists.  Every store of the constant 'R' into an element of
+    `ILLlpdata::sense` is therefore reached only over paths on which the array is known to exist: a store into the field
+    `ILLlpdata::rangeval` (an allocation) or the non-NULL edge of a test of it (must-analysis, path-sensitive; an allocation that a
+    caller has made before the call counts when every caller makes it)."""
+    from ..core import Flow, walk, strip, is_var, const_of, show, short_loc, apath, fields_of
+    from ..cond import atoms, SWAP
+    res = RuleResult(rule, "the constant 'R' is stored into ILLlpdata::sense only where ILLlpdata::rangeval is known to be allocated")
+    funcs = [f for f in prog.funcs.values() if f.live is None or True]
+    n = 0
+    pending = []
+    for f in sorted(prog.funcs.values(), key=lambda x: x.key):
+        if f.live is None or "_dbl." in f.unit or "_mpf." in f.unit or not f.unit.startswith("qsopt_ex/"):
+            continue
+        stores = {}
+        for b, i, e in f.elements():
+            if e[0] == "A" and e[1][1] == "=" and const_of(e[1][3]) == ord("R"):
+                l = strip(e[1][2])
+                if isinstance(l, list) and l and l[0] == "i":
+                    fl = fields_of(apath(l[1])[2]) if apath(l[1]) else None
+                    if fl and fl[-1].endswith("ILLlpdata::sense"):
+                        stores[(b["id"], i)] = e
+        if not stores:
+            continue
+        bad = {}
+
+        def is_rangeval(t):
+            t = strip(t)
+            return isinstance(t, list) and t and t[0] == "m" and isinstance(t[2], str) and t[2].endswith("ILLlpdata::rangeval")
+
+        def xfer(b, i, e, st):
+            if e[0] == "A" and is_rangeval(e[1][2]) and const_of(e[1][3]) != 0:
+                st = (1,)
+            if e[0] == "D":
+                for nme, init in e[1]:
+                    if nme.startswith("__ptr__") and init is not None:
+                        t = strip(init)
+                        if isinstance(t, list) and t and t[0] == "u" and t[1] == "&" and is_rangeval(t[2]):
+                            st = (1,)              # EGlpNumReallocArray (&(lp->rangeval), n)
+            if (b["id"], i) in stores and st == (0,):
+                bad.setdefault((b["id"], i), st)
+            return [st]
+
+        def refine(cond, truth, st):
+            for l, op, r in atoms(cond, truth):
+                for a, b_, o in ((l, r, op), (r, l, SWAP[op])):
+                    if is_rangeval(a) and const_of(b_) == 0:
+                        if o == "!=":
+                            return [(1,)]
+            return [st]
+
+        fl_ = Flow(prog, f, [(0,)], xfer, refine).run()
+        for key, e in stores.items():
+            n += 1
+            res.obligations += 1
+            res.nontrivial += 1
+            if key in bad:
+                res.violations.append(Violation(rule, "%s|'R' stored without a range array" % f.name.replace("mpq_", ""), f.name, short_loc(e[2]),
+                                                "%s is reached over a path on which ILLlpdata::rangeval has neither been allocated nor been seen non-NULL: the row is "
+                                                "ranged for the solver, but the writers print a RANGES record only when the array exists" % show(e[1])[:50],
+                                                path=fl_.witness(key[0], bad[key])))
+            else:
+                res.sample({"site": "%s %s: %s" % (short_loc(e[2]), f.name, show(e[1])[:50]), "verdict": "range array allocated / seen non-NULL on every path"}, limit=8)
+    res.counts["stores_of_R"] = n
+    res.floor("stores of the constant 'R' into ILLlpdata::sense", n, floor)
+    return res
